@@ -60,6 +60,7 @@ worker() { # k
       local prop="${CROSS:-${id%-*}}" out="$ROOT/$k/out.txt"
       ( cd "$wv" && ./check "$prop" quick ) > "$out" 2>&1; rc=$?
       viol=$(grep -m1 "invariant=" "$out" | sed 's/^ *//')
+      if [ -n "$CROSS" ]; then cp "$out" "$d/detect.cross-$CROSS.txt"; else cp "$out" "$d/detect.quick.txt"; fi
       [ $rc -eq 2 ] && viol="HARNESS-ERROR $(tail -3 "$out" | tr '\n' ' ' | cut -c1-300)"
       echo -e "$id\t$prop\trc=$rc\t$viol"
     fi
